@@ -174,9 +174,11 @@ class C03(Property):
             if timed_out:
                 break
             for run in vcase["runs"][:c01.MAX_RUNS]:
+                if time.time() > t_end:
+                    tags.append("truncated:case-budget")     # the remaining runs of this case are not started
+                    timed_out = True
+                    break
                 try:
-                    if time.time() > t_end:
-                        raise RunTimeout("the runs of this case already took more than %ds" % c01.CASE_BUDGET)
                     o = run_iso(vcase, run["cfg"], run["how"], run["sched"], run.get("pre"))
                 except RunTimeout as e:
                     fails.append(F("T", "%s triple list, cfg %s (%s): %s" % (vname, run["cfg"], run["how"], e), "timeout"))
